@@ -278,7 +278,7 @@ const c09RemuxCases = 12
 // continuity counter of every PID must advance by one per payload-carrying packet.
 func c09Remux(c *fw.Ctx, k int) {
 	r := c.Rng
-	vc := []string{"", "avc", "hevc", "avc"}[k%4]
+	vc := []string{"", "avc", "hevc", "avc", "hevc-enh", "avc", "hevc-enh", "hevc"}[k%8]
 	ac := "aac"
 	if k%6 == 5 && vc != "" {
 		ac = ""
@@ -308,6 +308,38 @@ func c09Remux(c *fw.Ctx, k int) {
 	}
 	rig.remuxer.Dispose()
 	rig.muxer.Dispose()
+	// the PAT/PMT the remuxer announced declares exactly the stream's codecs
+	{
+		d := ref.NewTsDemux()
+		d.Feed(rig.patpmt)
+		wantV, wantA := uint8(0), uint8(0)
+		switch vc {
+		case "avc":
+			wantV = 0x1b
+		case "hevc", "hevc-enh":
+			wantV = 0x24
+		}
+		if ac == "aac" {
+			wantA = 0x0f
+		}
+		var v, a uint8
+		for _, st := range d.FirstPmt.Streams {
+			if st.PID == 0x100 {
+				v = st.StreamType
+			}
+			if st.PID == 0x101 {
+				a = st.StreamType
+			}
+		}
+		c.Eval(1)
+		if len(rig.patpmt) != 376 || !d.PatSeen || !d.PmtSeen || len(d.Errs) > 0 {
+			c.Violate("remux/patpmt", fmt.Sprintf("announced PAT/PMT (%d bytes) does not parse: pat=%v pmt=%v errs=%v | spec=%+v", len(rig.patpmt), d.PatSeen, d.PmtSeen, d.Errs, sp), nil)
+			return
+		} else if v != wantV || a != wantA || len(d.FirstPmt.Streams) != btoi(wantV != 0)+btoi(wantA != 0) {
+			c.Violate("remux/pmt-codecs", fmt.Sprintf("PMT declares video %#x audio %#x (%d streams), the stream carries %s/%s = %#x/%#x | spec=%+v", v, a, len(d.FirstPmt.Streams), vc, ac, wantV, wantA, sp), nil)
+			return
+		}
+	}
 	last := map[uint16]int{}
 	n := 0
 	for idx, pk := range rig.produced {
@@ -432,4 +464,11 @@ func min(a, b int) int {
 		return a
 	}
 	return b
+}
+
+func btoi(b bool) int {
+	if b {
+		return 1
+	}
+	return 0
 }
